@@ -108,6 +108,26 @@ func c18Parse(c *eng.Ctx, r *eng.Report) {
 	r.Check(shape && baseExact && expOK && tenOK && base == 10 && !tamper, "O0", "strToBigInt:pipeline", pos,
 		"ParseFloat(s, 10, prec, mode) → target.Mul(target, SetInt(10^decimal)) → target.Int: receiver of Mul is the parsed value (inherits prec and mode), multiplier exact",
 		fmt.Sprintf("pipeline shape changed (Mul receiver/operand is the parsed value=%v, multiplier is SetInt(Exp(ten,decimal,nil))=%v/%v, ten==10=%v, base==10=%v, SetMode/SetPrec present=%v)", shape, baseExact, expOK, tenOK, base == 10, tamper))
+	// …and it is the only way to a result: every successful return hands back what Int() wrote, the empty string excepted
+	other := ""
+	nret := 0
+	for _, re := range eng.Returns(fn) {
+		if len(re.Ret.Results) < 2 || !eng.IsNilConst(re.Incoming(1)) {
+			continue
+		}
+		nret++
+		v := re.Incoming(0)
+		if v == intc[0].Call.Args[1] || eng.Desc(v) == eng.Desc(intc[0].Call.Args[1]) {
+			continue
+		}
+		if call, isC := v.(*ssa.Call); isC && eng.CallName(&call.Call) == "math/big.NewInt" {
+			if k, isK := eng.ConstInt(call.Call.Args[0]); isK && k == 0 {
+				continue // "" ↦ 0
+			}
+		}
+		other = c.Pos(re.Ret.Pos()) + " returns " + eng.Desc(v)
+	}
+	r.Check(other == "" && nret >= 1, "O0", "strToBigInt:single-path", pos, "every successful return is the result of the reviewed pipeline (or 0 for the empty string)", "strToBigInt has a successful return that does not come out of the ParseFloat→Mul→Int pipeline: "+other+" — a second parser with its own grammar (radix prefixes, digit separators, octal for a leading zero) or its own rounding, to which obligations O1–O3 do not apply")
 	// O1
 	nmax := new(big.Int).Exp(big.NewInt(10), big.NewInt(78+18), nil)
 	need := int64(nmax.BitLen() + 3)
